@@ -439,6 +439,9 @@ func computeNextSw() {
 //
 //go:norace
 func Yield(site int32) {
+	if hookN > 0 {
+		siteHook(site)
+	}
 	if !active || noPreempt > 0 {
 		return // no-preempt sections (probes, sync.Once bodies) do not advance the logical clock
 	}
